@@ -31,7 +31,7 @@ def _work(i):
         backends = _CERT(ob) if callable(_CERT) else _CERT
         res = symkernel.run_symbolic(ob.fn, _REPO, eager=ob.eager, cert_backends=backends,
                                      solver_model=solvers.sym_model(ob.solver),
-                                     max_paths=ob.max_paths or symkernel.MAX_PATHS)
+                                     max_paths=ob.max_paths or symkernel.MAX_PATHS, light=ob.light)
     except Exception as e:          # noqa: BLE001 -- an exception escaping the harness is a checker error, not a verdict
         res = {"status": "checker-error", "paths": [], "n_certs": 0, "wall_s": round(time.time() - t, 3),
                "notes": ["%s: %s" % (type(e).__name__, e), traceback.format_exc()[-1500:]], "inputs": []}
